@@ -42,6 +42,15 @@ class Parser(Emitter):
             result = None
         return {'result': result, 'error': error}
 
+    @staticmethod
+    def _canonical(value):
+        # a host may hand in (return, set or store) an XLError of its own making:
+        # use the shared error value with the same code, which is what ISNA,
+        # ERROR.TYPE & co. compare with
+        if isinstance(value, formulaserror.XLError):
+            return formulaserror.from_message(value)
+        return value
+
     def set_function(self, name, f):
         self.functions[name] = f
         return self
@@ -73,7 +82,7 @@ class Parser(Emitter):
                 result['value'] = new_value
 
         self.emit('callFunction', name, args, valsetter)
-        return result['value']
+        return self._canonical(result['value'])
 
     def set_variable(self, name, v):
         self.variables[name] = v
@@ -93,7 +102,7 @@ class Parser(Emitter):
         self.emit('callVariable', name, valsetter)
         if result['value'] is not_found:
             raise formulaserror.NAME
-        return result['value']
+        return self._canonical(result['value'])
 
     def call_cell_value(self, label):
         label = label.upper()
@@ -105,7 +114,7 @@ class Parser(Emitter):
                 result['value'] = new_value
 
         self.emit('callCellValue', Cell(label, row, col), valsetter)
-        return result['value']
+        return self._canonical(result['value'])
 
     def call_range_value(self, start_label, end_label):
         if start_label is None or end_label is None:
@@ -143,7 +152,7 @@ class Parser(Emitter):
                 result['value'] = new_value
 
         self.emit('callRangeValue', start_cell, end_cell, valsetter)
-        return result['value']
+        return self._canonical(result['value'])
 
     def _throw_error(self, error_name):
         raise formulaserror.from_message(error_name)
